@@ -99,6 +99,35 @@ def run_c02(tier, seed):
             "bound": "program length <= 12, <= 120 single-cycle steps", "contract": "five-stage == single-cycle on registers, data memory, output, exit code, retired/branch/call counts, retired order; same fault address and state at a fault"}
 
 
+def penalty_run(prog, regs, dcfg, icfg):
+    """five-stage run with caches: -> (first step whose cycle increment is not 1 + penalty x misses, or None; final state)"""
+    from architecture_simulator.uarch.memory.cache import CacheOptions
+    from architecture_simulator.simulation.runtime_errors import InstructionExecutionException
+    d = CacheOptions(True, *dcfg)
+    ic = CacheOptions(True, *icfg) if icfg is not None else None
+    pen_d, pen_i = dcfg[5], (icfg[5] if icfg is not None else 0)
+    b = make_sim(prog, regs, "five_stage_pipeline", True, dcache=d, icache=ic)
+    st = b.state
+    steps = 0
+    bad = None
+    try:
+        while not b.is_done() and steps < 400:
+            c0 = st.performance_metrics.cycles
+            dm0 = st.memory.accesses - st.memory.hits
+            im0 = (st.instruction_memory.accesses - st.instruction_memory.hits) if ic is not None else 0
+            b.step()
+            steps += 1
+            dm = st.memory.accesses - st.memory.hits - dm0
+            im = ((st.instruction_memory.accesses - st.instruction_memory.hits) if ic is not None else 0) - im0
+            if st.performance_metrics.cycles - c0 != 1 + pen_d * dm + pen_i * im:
+                bad = "step %d advanced the cycle counter by %d; one plus the penalties of its %d data / %d instruction misses is %d" % (
+                    steps, st.performance_metrics.cycles - c0, dm, im, 1 + pen_d * dm + pen_i * im)
+                break
+    except InstructionExecutionException:
+        pass
+    return bad, st
+
+
 def run_c07(tier, seed):
     evals = 0
     seen = set()
@@ -121,9 +150,38 @@ def run_c07(tier, seed):
                              "real": [c for _, c in retired], "reference": ref_retire, "real_total": cycles, "reference_total": ref_total})
         elif len(samples) < 3 and pm.stalls:
             samples.append({**describe(prog, regs), "retire_cycles": ref_retire, "total": ref_total})
-    return {"evaluations": evals, "distinct_nontrivial": len(seen), "violations": viol, "samples": samples,
-            "rule": "same program scope as C02; non-trivial = run with a stall or flush; distinct by (mnemonic sequence, #stalls, #flushes)",
-            "bound": "program length <= 12", "contract": "per-instruction retire cycle and total cycles == reference scheduler (spec/sched.py)"}
+    # penalty clause: with a data / instruction cache that charges a miss penalty, EVERY step advances the cycle counter
+    # by exactly one plus penalty x (misses counted in that step); the miss counts are the caches' own counters (their
+    # correctness is C09/C11's business), the schedule itself is unchanged by the caches
+    from architecture_simulator.uarch.memory.cache import CacheOptions
+    from architecture_simulator.simulation.runtime_errors import InstructionExecutionException
+    rnd = random.Random(seed + 77)
+    n_pen = 0
+    for _ in range(400 if tier == "quick" else 12000):
+        k = rnd.random()
+        if k < 0.5:
+            prog = [rnd.choice([lambda: I.SW(3, rnd.choice([1, 2]), 4 * rnd.randint(0, 40)), lambda: I.SH(3, rnd.choice([1, 2]), 2 * rnd.randint(0, 80)),
+                                lambda: I.SB(3, 1, rnd.randint(0, 160)), lambda: I.LW(rnd.choice([1, 2]), 3, 4 * rnd.randint(0, 40)),
+                                lambda: I.LH(1, 3, 2 * rnd.randint(0, 80)), lambda: I.LBU(2, 3, rnd.randint(0, 160)), lambda: I.ADDI(1, 1, 1), lambda: I.ADD(2, 1, 2)])()
+                    for _ in range(rnd.randint(3, 12))]
+        else:
+            prog = random_program(rnd, rnd.randint(3, 12))
+        regs = initial_regs(rnd)
+        pen_d, pen_i = rnd.choice([1, 2, 5]), rnd.choice([0, 3])
+        d = CacheOptions(True, rnd.randint(0, 1), rnd.randint(0, 1), rnd.choice([1, 2]), rnd.choice(["wb", "wt"]), rnd.choice(["lru", "plru"]), pen_d)
+        ic = CacheOptions(True, rnd.randint(0, 1), rnd.randint(0, 1), rnd.choice([1, 2]), "wb", "lru", pen_i) if rnd.random() < 0.5 else None
+        dcfg = [d.num_index_bits, d.num_block_bits, d.associativity, d.cache_type, d.replacement_strategy, pen_d]
+        icfg = [ic.num_index_bits, ic.num_block_bits, ic.associativity, "wb", "lru", pen_i] if ic is not None else None
+        bad, st = penalty_run(prog, regs, dcfg, icfg)
+        evals += 1
+        n_pen += 1
+        if st.memory.accesses > st.memory.hits > 0:
+            seen.add(("penalty", d.cache_type, tuple(type(p).__name__ for p in prog)[:6]))
+        if bad and len(viol) < 5:
+            viol.append({"key": "C07:penalty:" + bad[:60], "what": bad, **describe(prog, regs), "regs": regs, "data_cache": dcfg, "instruction_cache": icfg})
+    return {"evaluations": evals, "distinct_nontrivial": len(seen), "violations": viol, "samples": samples, "penalty_runs": n_pen,
+            "rule": "same program scope as C02; non-trivial = run with a stall or flush; distinct by (mnemonic sequence, #stalls, #flushes); plus random memory-dense and general programs in five-stage mode with random data (and instruction) caches charging a miss penalty",
+            "bound": "program length <= 12", "contract": "per-instruction retire cycle and total cycles == reference scheduler (spec/sched.py); with caches: every step advances the cycle counter by 1 + penalty x misses counted in that step"}
 
 
 def straight_line(rnd, n):
@@ -229,7 +287,10 @@ def replay(j):
     prog = [ins for _, ins in sorted(tmp.state.instruction_memory.instructions.items())]
     regs = j["regs"]
     key = j.get("key", "")
-    if key.startswith("C07"):
+    if key.startswith("C07:penalty"):
+        bad, _ = penalty_run(prog, regs, j["data_cache"], j.get("instruction_cache"))
+        ok = bad is None
+    elif key.startswith("C07"):
         r = check_equivalence(prog, regs, None)
         ref_retire, ref_total = schedule(r[4 - 1], True)
         ok = [c for _, c in r[5]] == ref_retire and r[6] == ref_total
